@@ -439,6 +439,19 @@ def basis_cases(draw, max_len):
 
 
 @st.composite
+def symmetric_bases(draw):
+    """bases closed (or nearly) under symmetries of the square: a pin permutation of 5-6 points and
+    one or two of its images, in a drawn order, sometimes with a short extra element"""
+    p = tuple(draw(st.sampled_from(pin_perms(draw(st.sampled_from([5, 6, 6]))))))
+    syms = draw(st.lists(st.sampled_from([g for g in ref.SYMS if g != "id"]), min_size=1, max_size=2, unique=True))
+    basis = [list(p)] + [list(ref.sym_perm(g, p)) for g in syms]
+    if draw(st.integers(0, 3)) == 0:
+        basis.append(list(draw(st.sampled_from(pin_perms(draw(st.integers(3, 4)))))))
+    basis = [list(b) for b in dict.fromkeys(tuple(b) for b in basis)]
+    return list(draw(st.permutations(basis)))
+
+
+@st.composite
 def pinword_dfa_cases(draw):
     """pin words whose factors have periodic direction tails (their direction words have nested
     borders) and words over the four letters with planted, overlapping and partial copies"""
@@ -535,6 +548,14 @@ def shard_generated(acc, shard, nshards, n_bases, max_len, L):
         bases.append(b)
 
     collect()
+
+    @hypothesis.seed(engine.SEED * 1000 + shard)
+    @engine.hyp_settings(max(2, n_bases // 4))
+    @given(symmetric_bases())
+    def collect_sym(b):
+        bases.append(b)
+
+    collect_sym()
     seen = set()
     for b in bases:
         if _bkey(b) in seen:
